@@ -213,7 +213,8 @@ class HTTPHeaders(collections.abc.MutableMapping[str, str]):
             self._combined_cache.pop(norm_name, None)
             self._as_list[norm_name].append(value)
         else:
-            self[norm_name] = value
+            self._combined_cache[norm_name] = value
+            self._as_list[norm_name] = [value]
 
     def get_list(self, name: str) -> list[str]:
         """Returns all values for the given header as a list."""
@@ -330,6 +331,15 @@ class HTTPHeaders(collections.abc.MutableMapping[str, str]):
     # MutableMapping abstract method implementations.
 
     def __setitem__(self, name: str, value: str) -> None:
+        # Refuse names and values that could not be serialized as a single
+        # well-formed header line (add() performs the same checks for
+        # parsed input).
+        if not isinstance(name, str) or not _ABNF.field_name.fullmatch(name):
+            raise ValueError("Invalid header name %r" % (name,))
+        if isinstance(value, (str, bytes)) and _FORBIDDEN_HEADER_CHARS_RE.search(
+            value.decode("latin1") if isinstance(value, bytes) else value
+        ):
+            raise ValueError("Invalid header value %r" % (value,))
         norm_name = _normalize_header(name)
         self._combined_cache[norm_name] = value
         self._as_list[norm_name] = [value]
